@@ -5,6 +5,21 @@ NOTES = ("All checks are contract-based deductive verification with pyvc (DESIGN
          "contract, failed validation of an assumed external contract). Known findings: /verif/known_findings.json.")
 
 CLAIMS = {
+    "C19": {
+        "text": ("Proof over a file-system-as-map model that, after the real _dump_entity, _restore_entity rebuilds a population with the "
+                 "same identifiers, memberships, positions, roles (encode by role key / decode against the entity's roles, through "
+                 "numpy.select) and the same number of entities for any number of persons and groups, and that after the real "
+                 "_dump_holder, _restore_holder hands the variable's holder, for every period the original held (dated or eternal), "
+                 "an array equal to the original - with the real OnDiskStorage.put / restore / get and Holder.create_disk_storage "
+                 "executed inside. One genuine defect (restored group count) was repaired by a fix: commit."),
+        "note": ("The numpy.save/load round trip is assumed per dtype (validated natively on every run; object dtype - string "
+                 "variables - is known not to load without pickle and is outside the claim) and periods.period(str(p)) == p is "
+                 "assumed from C05. Bounded: a holder with two stored periods; the orchestration in dump_simulation / "
+                 "restore_simulation (directory checks, iteration over variables) is not under contract. 'Calculations return the same' "
+                 "follows from equal stored views and the C01 contract, not from a separate obligation."),
+        "technique": "contract-based deductive verification (ghost file map, symbolic execution of dump then restore + SMT)",
+        "design_ref": "DESIGN.md section 4 C19",
+    },
     "C07": {
         "text": ("Proof of the representation invariant 'every memoised at-instant view of a system is the view of its current parameter "
                  "tree': get_parameters_at_instant returns the view of the current tree at the instant for any earlier reads and keeps "
